@@ -12,7 +12,7 @@ LEVEL = "model_checking"
 ASSUMPTIONS = L.ASSUMPTIONS
 INV = ["Linearizable", "GuaranteeF", "NoDupExposed", "ResidentFound", "SingleOwner", "InTabIsPhysical", "Sorted", "FlagsOk", "Conservation", "NoUAF"]
 COMP = L.comp_for(INV)
-QUICK = ["lfht_uniq", "lfht_uniq_trav", "lfht_uniq_grow", "lfht_repl_lookup", "lfht_addr_del"]
+QUICK = ["lfht_uniq", "lfht_uniq_trav", "lfht_uniq_grow", "lfht_repl_lookup", "lfht_addr_del", "lfht_addr_del_addu"]
 THOROUGH = QUICK + ["lfht_mix3", "lfht_repl2"]
 NEG = [("lfht_uniq_trav", "uniq_tail")]
 
